@@ -70,6 +70,11 @@ def wrapper_list_case(rng):
 def generate(rng, tier):
     n = 4000 if tier == "quick" else 40000
     cases = [wrapper_list_case(rng) for _ in range(300 if tier == "quick" else 3000)]
+    # documented asserts of char / range: invalid arguments must panic (and valid boundary ones must not)
+    for a, b in [(5, 3), (98, 97), (0, MAXC + 1), (MAXC, MAXC + 1), (MAXC + 1, MAXC + 1), (MAXC + 1, 3), (1, 0), (MAXC, MAXC), (0, 0), (0, MAXC)]:
+        cases.append("range %d %d ; nullable 0 ; mem 0 1 %d" % (a, b, min(a, MAXC)))
+    for x in [MAXC, MAXC + 1, 2 ** 32 - 1, 0]:
+        cases.append("char %d ; nullable 0 ; mem 0 1 %d" % (x, min(x, MAXC)))
     nw = len(cases)
     for i in range(n):
         wrapped = rng.random() < 0.2
